@@ -16,6 +16,8 @@ type c11State struct {
 var c11Gens = 0
 
 func c11Gen(ctx context.Context) *c11State {
+	vMu.Lock()
+	defer vMu.Unlock()
 	c11Gens++
 	return &c11State{Gen: c11Gens}
 }
@@ -130,9 +132,11 @@ func VerifC11PerRun() {
 	bad := ""
 	_ = g.AddLambdaNode("n2", InvokableLambda(func(ctx context.Context, id int) (int, error) { return id, nil }),
 		WithStatePreHandler(func(ctx context.Context, id int, s *c11State) (int, error) {
+			vMu.Lock()
 			if s.Owner != id && bad == "" {
 				bad = "a run observed the state of another run"
 			}
+			vMu.Unlock()
 			return id, nil
 		}))
 	_ = g.AddEdge(START, "n1")
@@ -149,10 +153,12 @@ func VerifC11PerRun() {
 	doneB := false
 	go func() {
 		o, e := r.Invoke(ctx, 4)
+		vMu.Lock()
 		if e != nil || o != 4 {
 			bad = "overlapping run B failed"
 		}
 		doneB = true
+		vMu.Unlock()
 	}()
 	o, e := r.Invoke(ctx, 3)
 	vassert(e == nil && o == 3, "overlapping run A succeeds")
